@@ -3,6 +3,7 @@
 package c08
 
 import (
+	"bytes"
 	"encoding/json"
 	"fmt"
 	"io"
@@ -64,6 +65,10 @@ type target struct {
 	numericFillers bool
 	// textKey fillers
 	textFillers bool
+	// docWrap, if set, places the payload somewhere inside the document decoded into typ
+	docWrap func(payload string) string
+	// tokenRoutes: also read the document with a SkipValue call and a ReadToken loop on fresh Decoders
+	tokenRoutes bool
 }
 
 type pair struct {
@@ -90,6 +95,11 @@ func pairs() []pair {
 		{name: "1/2,01/2", n1: `"1/2"`, n2: `"01/2"`, textKeyEqual: true},
 		{name: "a,b (control)", n1: `"a"`, n2: `"b"`, control: true},
 		{name: "z,z", n1: `"z"`, n2: `"z"`, equalText: true, foldEqual: true, foldField: "z"},
+		{name: "LF short / long escape", n1: `"\n"`, n2: `"\u000a"`, equalText: true},
+		{name: "quote short / long escape", n1: `"\""`, n2: `"\u0022"`, equalText: true},
+		{name: "tab in the middle, long / short escape", n1: `"a\u0009b"`, n2: `"a\tb"`, equalText: true},
+		{name: "backslash short / long escape", n1: `"\\"`, n2: `"\u005C"`, equalText: true},
+		{name: "LF / CR escapes (control)", n1: `"\n"`, n2: `"\u000d"`, control: true},
 	}
 }
 
@@ -108,7 +118,9 @@ func targets() []target {
 		{name: "map[string]any", typ: reflect.TypeOf(map[string]any{}), same: txt},
 		{name: "struct with embedded fallback map", typ: reflect.TypeOf(fallbackMapS{}), same: txt},
 		{name: "struct with embedded fallback raw value", typ: reflect.TypeOf(fallbackRawS{}), same: txt},
-		{name: "jsontext.Value", typ: reflect.TypeOf(jsontext.Value{}), same: txt},
+		{name: "jsontext.Value", typ: reflect.TypeOf(jsontext.Value{}), same: txt, tokenRoutes: true},
+		{name: "value of a skipped unknown member", typ: reflect.TypeOf(noFieldS{}), same: txt, docWrap: func(p string) string { return `{"extra":` + p + `,"z":1}` }},
+		{name: "nested in the value of a skipped unknown member", typ: reflect.TypeOf(noFieldS{}), same: txt, docWrap: func(p string) string { return `{"z":1,"extra":[0,{"in":` + p + `}]}` }},
 		{name: "struct without the field (skipped unknown)", typ: reflect.TypeOf(noFieldS{}), same: txt},
 	}
 }
@@ -222,6 +234,35 @@ func decodeVia(doc []byte, cut int, out any, opts ...jsonv2.Options) error {
 	return jsonv2.UnmarshalRead(&cutReader{data: doc, cut: cut}, out, opts...)
 }
 
+// tokenRoutes reads the document with Decoder.SkipValue and with a ReadToken loop.
+func tokenRoutes(doc string, cut int, wantErr bool) string {
+	for _, dup := range []bool{false, true} {
+		for route := 0; route < 2; route++ {
+			var d *jsontext.Decoder
+			if cut == 0 {
+				d = jsontext.NewDecoder(bytes.NewReader([]byte(doc)), jsontext.AllowDuplicateNames(dup))
+			} else {
+				d = jsontext.NewDecoder(&cutReader{data: []byte(doc), cut: cut}, jsontext.AllowDuplicateNames(dup))
+			}
+			var err error
+			if route == 0 {
+				err = d.SkipValue()
+			} else {
+				for i := 0; err == nil && i < 1<<16; i++ {
+					_, err = d.ReadToken()
+				}
+				if err == io.EOF {
+					err = nil
+				}
+			}
+			if (err != nil) != (wantErr && !dup) {
+				return fmt.Sprintf("%s with AllowDuplicateNames(%v): err=%v, but the document has two equal names = %v", []string{"Decoder.SkipValue", "ReadToken loop"}[route], dup, err, wantErr)
+			}
+		}
+	}
+	return ""
+}
+
 // checkDup decodes the document into the target under default options and under AllowDuplicateNames.
 func checkDup(t *target, p *pair, c *context, nfill, pos1, pos2 int, prepop bool) (doc string, msg string) {
 	return checkDupVia(t, p, c, nfill, pos1, pos2, prepop, false, 0)
@@ -233,7 +274,16 @@ func checkDupVia(t *target, p *pair, c *context, nfill, pos1, pos2 int, prepop, 
 			msg = fmt.Sprintf("library panic: %v", r)
 		}
 	}()
-	doc = c.doc(payload(t, p, nfill, pos1, pos2))
+	pl := payload(t, p, nfill, pos1, pos2)
+	if t.docWrap != nil {
+		pl = t.docWrap(pl)
+	}
+	doc = c.doc(pl)
+	if t.tokenRoutes && !prepop && !other {
+		if m := tokenRoutes(doc, cut, t.same(p)); m != "" {
+			return doc, m
+		}
+	}
 	mk := func() reflect.Value {
 		root := reflect.New(c.wrap(t.typ))
 		if c.name == "behind interface holding pointer" {
@@ -577,7 +627,7 @@ func Replay(r *evid.Run, raw json.RawMessage) {
 }
 
 func Run(r *evid.Run) {
-	r.Rule("unmarshal: 14 target shapes (struct exact / case:ignore / MatchCaseInsensitiveNames, maps with string / named string / int / float64 / TextMarshaler keys, any, map[string]any, embedded fallback map and raw value, raw value, struct skipping the member) x 10 name pairs (equal, differently escaped, case variants, '_'-variants, numerically equal integer and float keys, equal text keys, control) x 5 contexts (root, array element, member value, behind pointer at depth 3, behind interface) x filler counts {0,3,5,66,70} x every position pair of the two names (all pairs for small objects; first/last/around the 64-name switch for wide ones) x zero targets, targets pre-populated with the colliding key and targets pre-populated with unrelated entries only x input as []byte and streamed (every two-chunk split of the small documents, 1/7/64-byte reads for all): default options reject iff the names resolve to the same name/field/key (resolver table written from the docs); AllowDuplicateNames accepts with the later member winning and changes nothing on duplicate-free input. Ill-formed UTF-8: 24 ill-formed byte patterns in names and values x targets x {default: error, AllowInvalidUTF8: one U+FFFD per byte}. Marshal: 14 colliding-name constructions: never a nil error with duplicate names. evaluations = Unmarshal/Marshal scenario pairs; distinct_nontrivial = distinct scenarios with a colliding pair or ill-formed bytes")
+	r.Rule("unmarshal: 16 target shapes (the whole payload as / nested in the value of a member the struct does not know; the raw-value documents also through Decoder.SkipValue and a ReadToken loop; struct exact / case:ignore / MatchCaseInsensitiveNames, maps with string / named string / int / float64 / TextMarshaler keys, any, map[string]any, embedded fallback map and raw value, raw value, struct skipping the member) x 15 name pairs (equal, differently escaped incl. the short and six-character spellings of LF / quote / tab / backslash, case variants, '_'-variants, numerically equal integer and float keys, equal text keys, control) x 5 contexts (root, array element, member value, behind pointer at depth 3, behind interface) x filler counts {0,3,5,66,70} x every position pair of the two names (all pairs for small objects; first/last/around the 64-name switch for wide ones) x zero targets, targets pre-populated with the colliding key and targets pre-populated with unrelated entries only x input as []byte and streamed (every two-chunk split of the small documents, 1/7/64-byte reads for all): default options reject iff the names resolve to the same name/field/key (resolver table written from the docs); AllowDuplicateNames accepts with the later member winning and changes nothing on duplicate-free input. Ill-formed UTF-8: 24 ill-formed byte patterns in names and values x targets x {default: error, AllowInvalidUTF8: one U+FFFD per byte}. Marshal: 14 colliding-name constructions: never a nil error with duplicate names. evaluations = Unmarshal/Marshal scenario pairs; distinct_nontrivial = distinct scenarios with a colliding pair or ill-formed bytes")
 	r.Assume("resolver table (which name pairs resolve to the same field/key per target shape) written from the documentation")
 	ts, ps, cx := targets(), pairs(), contexts()
 	type unit struct{ ti, pi, ci int }
